@@ -12,6 +12,8 @@ from ``variant``, a number derived from the run seed, the instance and the run i
   * extra inputs that the algorithm must ignore, inserted at arbitrary positions: ``None``, a graph
     input, an initializer, the output of a node that is in no graph, the output of a node of an
     unrelated graph,
+  * extra CONSUMERS that the algorithm must ignore: nodes that are in no graph of the forest (removed without
+    ``safe=True``, or members of an unrelated graph) and still use an output of a node of the forest,
   * the order of the real inputs when the spec enumerated input multisets (``shuffle_inputs``),
   * how graphs are attached to their owner: one GRAPH attribute per graph or one GRAPHS attribute
     for two, attribute names whose alphabetical order differs from their insertion order, scalar
@@ -92,6 +94,15 @@ def build(inst, variant: int, shuffle_inputs: bool = False, feature: str | None 
             if val is not None:
                 nodes[i].replace_input_with(j, val)
 
+    # ---- consumers outside the forest: uses() of a node's outputs that are not dependencies of the sort ----
+    outside_users = []
+    for i in range(n):
+        if rng.random() < 0.35:
+            user = ir.Node("", "OutsideUser", [nodes[i].outputs[rng.randrange(nout[i])]], num_outputs=1, name=f"ou{i + 1}")
+            outside_users.append(user)
+            if rng.random() < 0.5:
+                foreign_graph.append(user)
+
     # ---- graphs (any creation order), then the graph attributes of the owners ----------------
     gorder = list(range(ng))
     rng.shuffle(gorder)
@@ -125,7 +136,7 @@ def build(inst, variant: int, shuffle_inputs: bool = False, feature: str | None 
     elif feature == "refattrs" and n:
         nodes[rng.randrange(n)].attributes.add(ir.RefAttr("ref_bodies", "fn_attr", ir.AttributeType.GRAPHS))
     name2id = {f"n{i + 1}": i + 1 for i in range(n)}
-    return Built(graphs, nodes, name2id, (detached, foreign_graph, gins, inits))
+    return Built(graphs, nodes, name2id, (detached, foreign_graph, gins, inits, outside_users))
 
 
 def run_api(b: Built, api: str, r: int = 1):
